@@ -12,6 +12,7 @@ pub mod der;
 pub mod iset;
 pub mod iterlaws;
 pub mod rtrsim;
+pub mod xmlrespell;
 pub mod c01;
 pub mod c02;
 pub mod c03;
